@@ -24,7 +24,7 @@ def ill_edit(rng, p, cols, eng):
     """-> (ill-formed program whose last call is the edit, expected classes, kind)"""
     missing = gen.fresh_tag(rng, cols)
     opts = mp.gen_opts(rng, eng, 0.8)
-    kinds = ["calc_missing", "sel_missing", "sort_missing", "proj_missing", "slice_neg", "slice_rev", "slice_step",
+    kinds = ["calc_missing", "sel_missing", "sort_missing", "sort_missing_multi", "proj_missing", "slice_neg", "slice_rev", "slice_step",
              "chain_cols", "chain_engine", "join_pred_missing", "join_engine"]
     if cols:
         kinds += ["calc_exists", "unsupported_calc", "unsupported_sel", "unsupported_sort", "proj_swap", "proj_swap", "proj_narrow"]
@@ -39,6 +39,11 @@ def ill_edit(rng, p, cols, eng):
         return ("un", ("sel", ("cmp", "lt", ("ref", missing), ("lit", 1))), opts, p), ["ColumnError"], k
     if k == "sort_missing":
         return ("un", ("sort", [(("ref", missing), True)]), opts, p), ["ColumnError"], k
+    if k == "sort_missing_multi":   # several terms, the offending one anywhere among them
+        good = [(("ref", c), rng.random() < 0.5) for c in sorted(cols)[:2]]
+        terms = good + [(("neg", ("ref", c)), True) for c in sorted(cols)[:1]]
+        terms.insert(rng.randrange(len(terms) + 1) if rng.random() < 0.3 else 0, (("ref", missing), rng.random() < 0.5))
+        return ("un", ("sort", terms), opts, p), ["ColumnError"], k
     if k == "proj_swap":       # as wide as the target, one column replaced by a missing one
         return ("un", ("proj", sorted((cols - {col}) | {missing})), opts, p), ["ColumnError"], k
     if k == "proj_narrow":     # narrower than the target, but naming a missing column
